@@ -18,47 +18,48 @@ func chance(rng *rand.Rand, p float64) bool { return rng.Float64() < p }
 
 // options steering the generic random generator
 type batOpts struct {
-	gens        []int
-	bufcaps     []int
-	errFullP    float64
-	limiterP    float64
-	flushes     []int64
-	capints     []int64
-	audits      []int64
-	maxops      []int64
-	pauses      []int64
-	maxconcs    []int
-	nWatchers   []int
-	maxBatches  []uint32
-	maxAttempts []uint32
-	wMaxOps     []int64 // relative choices: 0 unset, -1 negative, 1 shorter than batcher, 2 longer
-	nOps        []int
-	costs       []int64
-	caps        []int64 // Capacity() values
-	maxcapSlack []int64 // MaxCapacity = max(cap)+slack
-	durs        []int64 // callback durations; -1 = around the timeout; -2 = "never"
-	gapMS       []int64 // mean gap between driver steps
-	coincideP   float64 // probability that a step is snapped to a multiple of the flush interval
-	burstP      float64 // probability that an enqueue is followed by more at the same instant
-	reenqP      float64
-	maxReenq    int // at most this many re-enqueues of an existing object per scenario
-	nonBatchP   float64
-	pauseP      float64
-	flushP      float64
-	probeP      float64
-	capChangeP  float64
-	rejectP     float64 // malformed enqueues: nil op, no watcher, too expensive
-	holdP       float64 // park an enqueuer at the hook
-	costShiftP  float64 // operation whose cost differs at completion
-	stopMidP    float64 // stop somewhere in the middle and keep calling the API afterwards
-	startLateP  float64 // some calls before Start
-	setterP     float64
-	horizonMin  int64   // keep running at least this long before the final stop
-	lateOnly    bool    // with a never-returning callback present, allow the tail to be long
-	busyFDs     []int64 // how long a listener keeps the loop busy inside flush-done (v2)
-	busyAudits  []int64 // ... inside the audit events
-	busyCaps    []int64 // how long the rate limiter's GiveMe takes
-	reactPauses []int64 // how many resume events are answered by a Pause() from a listener's goroutine
+	gens          []int
+	bufcaps       []int
+	errFullP      float64
+	limiterP      float64
+	flushes       []int64
+	capints       []int64
+	audits        []int64
+	maxops        []int64
+	pauses        []int64
+	maxconcs      []int
+	nWatchers     []int
+	maxBatches    []uint32
+	maxAttempts   []uint32
+	wMaxOps       []int64 // relative choices: 0 unset, -1 negative, 1 shorter than batcher, 2 longer
+	nOps          []int
+	costs         []int64
+	caps          []int64 // Capacity() values
+	maxcapSlack   []int64 // MaxCapacity = max(cap)+slack
+	durs          []int64 // callback durations; -1 = around the timeout; -2 = "never"
+	gapMS         []int64 // mean gap between driver steps
+	coincideP     float64 // probability that a step is snapped to a multiple of the flush interval
+	burstP        float64 // probability that an enqueue is followed by more at the same instant
+	reenqP        float64
+	maxReenq      int // at most this many re-enqueues of an existing object per scenario
+	nonBatchP     float64
+	pauseP        float64
+	flushP        float64
+	probeP        float64
+	capChangeP    float64
+	maxcapChangeP float64 // MaxCapacity() of the limiter changes on the way
+	rejectP       float64 // malformed enqueues: nil op, no watcher, too expensive
+	holdP         float64 // park an enqueuer at the hook
+	costShiftP    float64 // operation whose cost differs at completion
+	stopMidP      float64 // stop somewhere in the middle and keep calling the API afterwards
+	startLateP    float64 // some calls before Start
+	setterP       float64
+	horizonMin    int64   // keep running at least this long before the final stop
+	lateOnly      bool    // with a never-returning callback present, allow the tail to be long
+	busyFDs       []int64 // how long a listener keeps the loop busy inside flush-done (v2)
+	busyAudits    []int64 // ... inside the audit events
+	busyCaps      []int64 // how long the rate limiter's GiveMe takes
+	reactPauses   []int64 // how many resume events are answered by a Pause() from a listener's goroutine
 }
 
 func defaultBatOpts() batOpts {
@@ -301,6 +302,12 @@ func genRandomBat(rng *rand.Rand, name string, o batOpts) *Scenario {
 			}
 			steps = append(steps, Step{At: t, Kind: "setcap", A: []int64{nc}})
 		}
+		if sc.Limiter && o.maxcapChangeP > 0 && chance(rng, o.maxcapChangeP) {
+			// the limiter's MaxCapacity() moves while the Batcher runs (a SharedResource does that when it is
+			// reconfigured): operations that were admitted, attempted and come back may now be too expensive as well
+			advance()
+			steps = append(steps, Step{At: t, Kind: "setmaxcap", A: []int64{pick(rng, int64(0), 3, 39, maxcap, maxcap+60)}})
+		}
 		if sc.Gen == 2 && started && chance(rng, o.setterP) {
 			advance()
 			steps = append(steps, Step{At: t, Kind: "setter", A: []int64{int64(rng.Intn(7)), 5 * MS}})
@@ -504,6 +511,7 @@ func genFamily(rng *rand.Rand, family string, idx int, o batOpts) *Scenario {
 		o.nOps = []int{3, 6, 10}
 		o.costs = []int64{0, 1, 5, 40, 100, 101}
 		o.caps = []int64{100, 100, 100, 0} // MaxCapacity 0: every positive cost is too expensive
+		o.maxcapChangeP = 0.12
 		o.maxcapSlack = []int64{0}
 		o.durs = []int64{0, 1*MS + 13}
 		o.gapMS = []int64{150, 400}
